@@ -206,6 +206,11 @@ impl GRLParser {
             .collect()
     }
 
+    /// Verification hook: the when / then split of a rule body.
+    pub fn verif_split_when_then(body: &str) -> Option<(String, String)> {
+        Self::split_when_then(body).map(|(c, a)| (c.to_string(), a.to_string()))
+    }
+
     /// Verification hook: the quote-aware substring search.
     pub fn verif_find_outside_strings(text: &str, pattern: &str) -> Option<usize> {
         Self::find_outside_strings(text, pattern)
